@@ -200,7 +200,7 @@ def _call(mon, case, which, ref, hyp, **over):
 
     ins, dl, sub = G.costs_as_given(case)
     kw = dict(eos=case["eos"], include_eos=case["include_eos"], norm=case["norm"],
-              batch_first=case["batch_first"], ins_cost=ins, del_cost=dl, sub_cost=sub, warn=False)
+              batch_first=case["batch_first"], ins_cost=ins, del_cost=dl, sub_cost=sub, warn=G.warn_flag(case))
     if which == "prefix_error_rates":
         kw.update(padding=case["padding"], exclude_last=case["exclude_last"])
     kw.update(over)
@@ -355,9 +355,9 @@ def _call_loss(mon, case, lp, ref, hyp):
         if case["form"] == "module":
             mon.stat("form_module")
             return mon.lib("minimum_error_rate_loss",
-                           lambda: LY.travelled(M.MinimumErrorRateLoss(**kw), case["R"], case["H"])(lp, ref, hyp, warn=False))
+                           lambda: LY.travelled(M.MinimumErrorRateLoss(**kw), case["R"], case["H"])(lp, ref, hyp, warn=G.warn_flag(case)))
         return mon.lib("minimum_error_rate_loss",
-                       lambda: F.minimum_error_rate_loss(lp, ref, hyp, warn=False, **kw))
+                       lambda: F.minimum_error_rate_loss(lp, ref, hyp, warn=G.warn_flag(case), **kw))
 
 
 def _softmax64(row):
